@@ -175,7 +175,15 @@ impl<T: Bounded> BVH<T> {
                 completed.insert(parent_id, parent_node);
             }
         }
-        Self::new(completed.remove(&0_usize))
+        // Con un único nodo terminal (número de elementos <= max_num_elements) este es la raíz
+        let root = match node_list.pop() {
+            Some(TreeElement(_, Leaf, _, _, Some(elements))) => {
+                let aabb = elements.aabb();
+                Some(BVHNode::Leaf { aabb, elements })
+            }
+            _ => completed.remove(&0_usize),
+        };
+        Self::new(root)
     }
 
     /// Itera sobre los nodos con los que colisiona el rayo
